@@ -37,7 +37,7 @@ func init() {
 	contextFunctions[symbols.NT_StepWithAxisAndNodeTest] = leftRightDependentResult
 	contextFunctions[symbols.NT_StepWithAxisAndNodeTestAndPredicate] = leftRightDependentResult
 	contextFunctions[symbols.NT_StepWithPredicateWithAnotherPredicate] = leftRightDependentResult
-	contextFunctions[symbols.NT_FilterExprWithPredicate] = leftRightDependentResult
+	contextFunctions[symbols.NT_FilterExprWithPredicate] = execFilterExprWithPredicate
 	contextFunctions[symbols.NT_AxisName] = execAxisName
 	contextFunctions[symbols.NT_AbbreviatedStepParent] = execAbbreviatedStepParent
 	contextFunctions[symbols.NT_AbbreviatedAxisSpecifier] = execAbbreviatedAxisSpecifier
@@ -68,7 +68,51 @@ func execStep(context *exprContext, expr *grammar.Grammar) error {
 		}
 	}
 
-	switch nextBsr.Label.Slot().NT {
+	nextNT := nextBsr.Label.Slot().NT
+	nextExpr := expr.Next(nextBsr)
+
+	switch nextNT {
+	case symbols.NT_NodeTestAndPredicate,
+		symbols.NT_StepWithAxisAndNodeTestAndPredicate:
+		// The predicates of a step are evaluated separately for every
+		// context node: position() and last() count within the nodes the
+		// axis and node test select from that one context node.
+		nodeSet, ok := context.result.(NodeSet)
+
+		if !ok {
+			return errQueryNonNodeset
+		}
+
+		result := make(NodeSet, 0)
+
+		for _, n := range nodeSet {
+			next := context.copy()
+			next.result = NodeSet{n}
+
+			if err := execStepBody(&next, nextExpr, nextNT); err != nil {
+				return err
+			}
+
+			selected, ok := next.result.(NodeSet)
+
+			if !ok {
+				return errQueryNonNodeset
+			}
+
+			result = append(result, selected...)
+		}
+
+		context.result = cleanupForwardAxis(result)
+		return nil
+	}
+
+	return execStepBody(context, nextExpr, nextNT)
+}
+
+// execStepBody evaluates the body of a step from the node-set in
+// context.result.  A step without an axis specifier uses the child axis.
+func execStepBody(context *exprContext, expr *grammar.Grammar, nt symbols.NT) error {
+	switch nt {
 	case symbols.NT_NodeTest,
 		symbols.NT_NodeTestAndPredicate,
 		symbols.NT_NodeTestNodeTypeNoArgTest,
@@ -93,7 +137,32 @@ func execStep(context *exprContext, expr *grammar.Grammar) error {
 		context.result = selectChild(nodeSet)
 	}
 
-	return execContext(context, expr.Next(nextBsr))
+	return execContext(context, expr)
+}
+
+// execFilterExprWithPredicate evaluates FilterExpr Predicate: the predicate
+// numbers the node-set of the filter expression in document order, whatever
+// order it was selected in.
+func execFilterExprWithPredicate(context *exprContext, expr *grammar.Grammar) error {
+	children := make([]*bsr.BSR, 0, 2)
+
+	for _, cn := range expr.BSR.GetAllNTChildren() {
+		for _, c := range cn {
+			children = append(children, &c)
+		}
+	}
+
+	if err := execContext(context, expr.Next(children[0])); err != nil {
+		return err
+	}
+
+	if nodeSet, ok := context.result.(NodeSet); ok {
+		ordered := make(NodeSet, len(nodeSet))
+		copy(ordered, nodeSet)
+		context.result = cleanupForwardAxis(ordered)
+	}
+
+	return execContext(context, expr.Next(children[1]))
 }
 
 func execPredicate(context *exprContext, expr *grammar.Grammar) error {
